@@ -2,6 +2,8 @@
 """Imports confirmed seeded changes from /tmp/seeded-out into /verif/seeded/<prop>-<variant>/."""
 import json, os, re, shutil, sys
 SUMMARY = {
+ "C05-E": ("HashSet ^= &HashSet looks the item up without reserving first and turns the 'found' arm of the second, reserving search into unreachable_unchecked", "broken hashing only: a set at capacity holding an element whose hash changed since insertion (found after the rehash that reserve(1) performs), or an Eq that flips between the two comparisons"),
+ "C05-F": ("HashSet::get_or_insert_with does a reservation-free lookup first and makes the 'found' arm of find_or_find_insert_slot unreachable_unchecked", "broken Eq only: a call-dependent Eq that answers differently in the two searches"),
  "C07-E": ("HashSet::clone_from clones only the raw table and no longer copies the source's BuildHasher", "HashSet::clone_from (not clone, not HashMap::clone_from) between sets whose hasher instances carry different state, then any lookup or set relation on the destination"),
  "C08-E": ("reserve_rehash_inner prefers the in-place rehash for tables of >= 2^20 buckets whenever tombstones exist and len+additional <= bucket_mask", "a table of >= 2^20 buckets with tombstones and reserve(n) with 7/8*buckets < len+n <= buckets: capacity() stays below len+n"),
  "C11-E": ("ptr::eq identity fast path in HashMap::eq (and HashSet::eq)", "m == m on the very same map object holding a value whose PartialEq is not reflexive"),
